@@ -60,6 +60,8 @@ inductive Item where
   | snap (t : Nat) (pending inflight : Nat) (collision awaitPing : Bool)
   /-- a `run` of the harness ended with the loop idle at time `t` -/
   | runEnd (t : Nat)
+  /-- input (MQTT 5): the CONNACK just written carries `receive_maximum = n` -/
+  | receiveMax (n : Nat)
 deriving Repr
 
 /-- a message the broker has seen and not finally acknowledged -/
@@ -79,7 +81,10 @@ structure MonState where
   ver : Ver := .v4
   k : Nat := 0
   ct : Nat := 0
+  /-- the inflight limit in force: the configured one, lowered by an MQTT 5 `receive_maximum` -/
   max : Nat := 0
+  /-- the client's configured inflight limit -/
+  cfgMax : Nat := 0
   -- C18 --------------------------------------------------------------------------------
   connected : Bool := false
   /-- time of the CONNACK notification or of the last firing of the keep-alive branch -/
@@ -104,6 +109,11 @@ structure MonState where
   expect : List Req := []
   /-- the current connection resumed a session (`session_present`) -/
   resumed : Bool := false
+  /-- tags carried over WITH a packet id by the last failure: the client had accepted (and, as far
+      as it knows, sent) them on the failed connection, even if the broker never saw them -/
+  carriedReplay : List String := []
+  /-- messages written (again or for the first time) on the current connection -/
+  reSent : List String := []
   /-- `ord` of the last retransmitted QoS 1 publish on this connection -/
   lastReOrd : Option Nat := none
   /-- the previous connection failed while carried-over requests were still waiting -/
@@ -200,7 +210,7 @@ def verName : Ver → String
   | .v5 => "v5"
 
 def monStep (m : MonState) : Item → MonState × Fails
-  | .start ver k ct max => ({ ver := ver, k := k, ct := ct, max := max }, [])
+  | .start ver k ct max => ({ ver := ver, k := k, ct := ct, max := max, cfgMax := max }, [])
   | .brokerWrite t p ska =>
     match p with
     | .pingresp =>
@@ -264,7 +274,7 @@ def monStep (m : MonState) : Item → MonState × Fails
       let gateFail : Fails :=
         if fresh && !isParked && m.expect.isEmpty && m.snapPending == 0 &&
             (decide (m.snapInflight ≥ m.max) || m.snapCollision) then
-          [("loop-gate", s!"request {tag} taken at {t} with inflight={m.snapInflight} max={m.max} collision={m.snapCollision}")]
+          [("loop-gate", s!"request {tag} taken at {t} with inflight={m.snapInflight} max={m.max} collision={m.snapCollision} (limit in force: configured {m.cfgMax}, negotiated {m.max})")]
         else []
       -- C11/C02 resume: carried-over requests first, in the order `clean` kept them
       -- (the publish parked by AwaitAck before the failure is older than anything merely queued:
@@ -292,6 +302,17 @@ def monStep (m : MonState) : Item → MonState × Fails
             | none => (some u.ord, [])
           else (m.lastReOrd, [])
         | none => (m.lastReOrd, [])
+      -- C11: a request that was never on the wire (issued after those) is not written on a resumed
+      -- connection while a PUBLISH the broker has not acknowledged at all (no PUBACK / PUBREC written)
+      -- still waits for its retransmission. (A QoS 2 message whose PUBREC was written only has its
+      -- release outstanding; `clean()` lists releases behind all publishes, which the statement —
+      -- "every publish left unacknowledged" — does not rule out.)
+      let laterFail : Fails :=
+        if known.isNone && m.resumed && !(m.carriedReplay.contains tag) then
+          match m.unacked.find? (fun u => !u.recd && !(m.reSent.contains u.tag)) with
+          | some u => [("loop-order", s!"request {tag} (never sent before) written at {t} before unacknowledged {u.tag} (id {u.pkid}) was retransmitted")]
+          | none => []
+        else []
       -- no session: a carried-over message must not be written
       let nosessFail : Fails :=
         if !m.resumed && m.carried.contains tag then
@@ -304,41 +325,61 @@ def monStep (m : MonState) : Item → MonState × Fails
                                     viaComp := isParked && m.parkedByComp }]
       ({ m with unacked := unacked', nextOrd := if known.isNone && q != 0 then m.nextOrd + 1 else m.nextOrd,
                 expect := expect', lastReOrd := lastRe,
+                reSent := if q != 0 then m.reSent ++ [tag] else m.reSent,
                 parked := if isParked then none else m.parked,
                 parkedByComp := if isParked then false else m.parkedByComp },
-       gateFail ++ orderFail ++ origFail ++ nosessFail)
+       gateFail ++ orderFail ++ origFail ++ laterFail ++ nosessFail)
     | _ =>
+      let isSub := match p with
+        | .subscribe _ => true
+        | .unsubscribe _ => true
+        | _ => false
+      -- C07: SUBSCRIBE / UNSUBSCRIBE read from the channel obey the same gate as publishes
+      let subFails : Fails :=
+        if isSub then
+          (if m.expect.isEmpty && m.snapPending == 0 && (decide (m.snapInflight ≥ m.max) || m.snapCollision) then
+            [("loop-gate", s!"request {repr p} taken at {t} with inflight={m.snapInflight} max={m.max} collision={m.snapCollision} (limit in force: configured {m.cfgMax}, negotiated {m.max})")] else []) ++
+          (if m.resumed then
+            match m.unacked.find? (fun u => !u.recd && !(m.reSent.contains u.tag)) with
+            | some u => [("loop-order", s!"request {repr p} written at {t} before unacknowledged {u.tag} (id {u.pkid}) was retransmitted")]
+            | none => []
+           else [])
+        else []
       let m := match p with
         | .subscribe _ => { m with subIdSeen := true }
         | .unsubscribe _ => { m with subIdSeen := true }
+        -- the release of a QoS 2 message is its retransmission once the PUBREC was written
+        | .pubrel id => { m with reSent := m.reSent ++ (m.unacked.filter (fun (u : Unacked) => u.qos == 2 && u.pkid == id)).map (fun (u : Unacked) => u.tag) }
         | _ => m
-      -- manual acknowledgements travel through `pending` too; an automatic reply of the same
-      -- kind is not a request, so these only ever consume a matching head of `expect`
-      let ackReq : Option Req := match p with
-        | .pubrec id => some (.pubrec id)
-        | .puback id => some (.puback id)
-        | _ => none
-      match ackReq, m.expect with
-      | some a, e :: es => if sameReq e a then ({ m with expect := es }, []) else (m, [])
-      | some _, [] => (m, [])
-      | none, _ =>
-      match wireAsReq p with
-      | some r =>
-        match m.expect with
-        | e :: es =>
-          if sameReq e r then ({ m with expect := es }, [])
-          else if m.expect.any (sameReq r) then
-            ({ m with expect := m.expect.filter (fun x => !sameReq x r) },
-             [("loop-order", s!"{showReq r} written before carried-over {showReq e} replay-interrupted={m.replayInterrupted}")])
-          else (m, [("loop-order", s!"new request {showReq r} written before carried-over {showReq e} replay-interrupted={m.replayInterrupted}")])
-        | [] => (m, [])
-      | none => (m, [])
+      let r0 : MonState × Fails := (
+        -- manual acknowledgements travel through `pending` too; an automatic reply of the same
+        -- kind is not a request, so these only ever consume a matching head of `expect`
+        let ackReq : Option Req := match p with
+          | .pubrec id => some (.pubrec id)
+          | .puback id => some (.puback id)
+          | _ => none
+        match ackReq, m.expect with
+        | some a, e :: es => if sameReq e a then ({ m with expect := es }, []) else (m, [])
+        | some _, [] => (m, [])
+        | none, _ =>
+        match wireAsReq p with
+        | some r =>
+          match m.expect with
+          | e :: es =>
+            if sameReq e r then ({ m with expect := es }, [])
+            else if m.expect.any (sameReq r) then
+              ({ m with expect := m.expect.filter (fun x => !sameReq x r) },
+               [("loop-order", s!"{showReq r} written before carried-over {showReq e} replay-interrupted={m.replayInterrupted}")])
+            else (m, [("loop-order", s!"new request {showReq r} written before carried-over {showReq e} replay-interrupted={m.replayInterrupted}")])
+          | [] => (m, [])
+        | none => (m, []))
+      (r0.1, subFails ++ r0.2)
   | .wireEof _ => (m, [])
   | .event t e =>
     match e with
     | .incoming (.connack sp _) =>
       let m1 := { m with connected := true, lastFire := t, lastResp := t, outstanding := none, hypOk := true,
-                         attempt := none, resumed := sp, lastReOrd := none,
+                         attempt := none, resumed := sp, lastReOrd := none, reSent := [],
                          expect := if sp then m.expect else [],
                          -- without a session the broker has forgotten everything
                          unacked := if sp then m.unacked else [] }
@@ -366,7 +407,7 @@ def monStep (m : MonState) : Item → MonState × Fails
         else []
       let gateFail : Fails :=
         if m.expect.isEmpty && m.snapPending == 0 && (decide (m.snapInflight ≥ m.max) || m.snapCollision) then
-          [("loop-gate", s!"request parked on id {id} taken at {t} with inflight={m.snapInflight} max={m.max} collision={m.snapCollision}")]
+          [("loop-gate", s!"request parked on id {id} taken at {t} with inflight={m.snapInflight} max={m.max} collision={m.snapCollision} (limit in force: configured {m.cfgMax}, negotiated {m.max})")]
         else []
       ({ m with parked := some id, parkedByComp := false, snapCollision := true,
                 expect := match m.expect with
@@ -409,8 +450,11 @@ def monStep (m : MonState) : Item → MonState × Fails
     let fLost : Fails := lost.map fun u =>
       ("loop-lost", s!"{u.tag} (qos {u.qos}, id {u.pkid}) unacknowledged at the failure at {t} but not in pending written-by-pubcomp-handler={u.viaComp}")
     let carried := pending.filterMap reqTagOf
+    let carriedReplay := pending.filterMap (fun r => match r with
+      | .publish _ pkid tag => if pkid != 0 then some tag else none
+      | _ => none)
     ({ m0 with connected := false, attempt := none, connackAt := none, outstanding := none,
-               expect := pending, carried := carried, toSurface := [],
+               expect := pending, carried := carried, carriedReplay := carriedReplay, toSurface := [],
                staleSurface := if m.connected then m.toSurface else m.staleSurface,
                replayInterrupted := if m.connected then !m.expect.isEmpty else m.replayInterrupted,
                -- `clean()` empties the collision slot (the parked publish is carried over in `pending`)
@@ -418,6 +462,7 @@ def monStep (m : MonState) : Item → MonState × Fails
                parkedByComp := if m.connected then false else m.parkedByComp },
      f18 ++ fLost)
   | .snap _ p i c _ => ({ m with snapPending := p, snapInflight := i, snapCollision := c }, [])
+  | .receiveMax n => ({ m with max := min n m.cfgMax }, [])
   | .runEnd t => (m, checkIdle m t)
 
 def monRun (m : MonState) : List Item → MonState × Fails
